@@ -77,7 +77,8 @@
 //!    `observations.error_or_rst_for_ll_bcast_ip_unicast`).
 //!  * R3 non-unicast source = {unspecified, broadcast, multicast} exactly as listed; loopback
 //!    and the interface's own address as source are executed but not judged by R3.
-//!  * AnyIP on: foreign unicast destinations / ARP targets are not judged by R1 (the statement
+//!  * AnyIP on: foreign destinations (unicast, ARP targets, and - because this tree asks
+//!    `has_ip_addr()` before the group membership - never-joined multicast groups) are not judged by R1 (the statement
 //!    does not define AnyIP; documented: accepted when routed via an own address; this tree
 //!    accepts every address). Counted under `observations.any_ip_*`. For the same reason R5 does
 //!    not judge TCP to a loopback destination while AnyIP is on.
@@ -416,7 +417,8 @@ fn enumerate(p: &Plan) -> Vec<Cell> {
                 }
                 for &ver in Ver::ALL {
                     for &sock in &p.x_socks {
-                        push_cells_routed(&mut v, p, Prefix::NoPrefix, med, ver, Layout::Same2, routes, any_ip, p.r_unicast_dst_only, true, sock, true);
+                        // AnyIP on is not judged by R1: the reduced destination/source/port set suffices
+                        push_cells_routed(&mut v, p, Prefix::NoPrefix, med, ver, Layout::Same2, routes, any_ip, p.r_unicast_dst_only || any_ip, true, sock, true);
                     }
                 }
             }
@@ -744,8 +746,13 @@ fn judge(c: &Cell, e: &Exec) -> Verdict {
     // `has_ip_addr()` then answers true for EVERY address). The statement does not define AnyIP:
     // foreign UNICAST destinations (and ARP targets) are not judged by R1 while it is on, only
     // recorded, split by whether the documented rule (live route via an own address) covers them.
-    let any_ip_exempt = c.any_ip && ip_foreign && (c.dst.is_foreign_unicast() || c.kind == Kind::Arp);
-    if any_ip_exempt && ll_trigger.is_none() {
+    // In this tree AnyIP also lets packets for multicast groups that were never joined through
+    // (`has_ip_addr()` is asked before the multicast membership): equally recorded, not judged.
+    let any_ip_exempt = c.any_ip && ip_foreign;
+    if any_ip_exempt && ll_trigger.is_none() && !(c.dst.is_foreign_unicast() || c.kind == Kind::Arp) {
+        let accepted = !v.delivered.is_empty() || !replies.is_empty();
+        v.notes.push(if accepted { "any_ip_on_unjoined_multicast_group_accepted(beyond the documented rule, not judged)" } else { "any_ip_on_unjoined_multicast_group_silent" });
+    } else if any_ip_exempt && ll_trigger.is_none() {
         let documented = routed_via_own(c.routes, c.dst);
         let accepted = !v.delivered.is_empty() || !replies.is_empty();
         v.notes.push(match (documented, accepted) {
